@@ -69,6 +69,60 @@ async def main():
             if got != want:
                 return True, f'after {[type(m).__qualname__ for m in seq]} the room is {got}, the fold of the notifications is {want}', \
                     {'sequence': [repr(m) for m in seq]}
+        # messages of blocked users are not reported, for every flag combination that contains the kind's bit
+        from aioslsk.user.model import BlockingFlag
+        from aioslsk.events import RoomMessageEvent, PublicMessageEvent, PrivateMessageEvent
+        for flags in (BlockingFlag.NONE, BlockingFlag.ROOM_MESSAGES, BlockingFlag.PRIVATE_MESSAGES, BlockingFlag.ROOM_MESSAGES | BlockingFlag.SEARCHES,
+                      BlockingFlag.PRIVATE_MESSAGES | BlockingFlag.UPLOADS, BlockingFlag(63)):
+            client = make_client(tmp, ME)
+            me = client.users.get_user_object(ME)
+            client.users._session = Session(user=me, ip_address='1.1.1.1', greeting='', client_version=1, minor_version=1)
+            client.session = client.users._session
+            client.settings.users.blocked = {'bob': flags} if flags else {}
+            seen = []
+
+            async def listener(ev):
+                seen.append(type(ev).__name__)
+            for evc in (RoomMessageEvent, PublicMessageEvent, PrivateMessageEvent):
+                client.events.register(evc, listener)
+            conn = client.network.server_connection
+            await client.rooms._MESSAGE_MAP[M.RoomChatMessage.Response](M.RoomChatMessage.Response('r1', 'bob', 'hello'), conn)
+            await client.rooms._MESSAGE_MAP[M.PublicChatMessage.Response](M.PublicChatMessage.Response('r1', 'bob', 'hello'), conn)
+            try:
+                client.network.send_server_messages = lambda *a, **k: asyncio.sleep(0)
+                await client.users._MESSAGE_MAP[M.PrivateChatMessage.Response](M.PrivateChatMessage.Response(1, 1, 'bob', 'hello', False), conn)
+            except Exception:
+                pass
+            want = []
+            if not flags & BlockingFlag.ROOM_MESSAGES:
+                want += ['RoomMessageEvent', 'PublicMessageEvent']
+            if not flags & BlockingFlag.PRIVATE_MESSAGES:
+                want += ['PrivateMessageEvent']
+            if sorted(seen) != sorted(want):
+                return True, f'user bob blocked with {flags!r}: reported {sorted(seen)}, expected {sorted(want)}', {'flags': int(flags)}
+        # lists replace: RoomList and PrivilegedUsers
+        client = make_client(tmp, ME)
+        me = client.users.get_user_object(ME)
+        client.users._session = Session(user=me, ip_address='1.1.1.1', greeting='', client_version=1, minor_version=1)
+        client.session = client.users._session
+        conn = client.network.server_connection
+        rl = client.rooms._MESSAGE_MAP[M.RoomList.Response]
+        await client.rooms._MESSAGE_MAP[M.JoinRoom.Response](M.JoinRoom.Response('priv', ['bob'], [2], [STATS], [1], ['NL'], owner='bob', operators=['eve']), conn)
+        await rl(M.RoomList.Response(rooms=['pub'], rooms_user_count=[1], rooms_private_owned=['mine'], rooms_private_owned_user_count=[1],
+                                     rooms_private=['priv'], rooms_private_user_count=[2], rooms_private_operated=['priv']), conn)
+        r = client.rooms.rooms
+        if r['priv'].owner != 'bob' or r['mine'].owner != ME or ME not in r['priv'].members or ME not in r['priv'].operators or r['pub'].private:
+            return True, f"after RoomList: priv.owner={r['priv'].owner!r} mine.owner={r['mine'].owner!r} members={r['priv'].members} operators={r['priv'].operators}", None
+        await rl(M.RoomList.Response(rooms=['pub'], rooms_user_count=[1], rooms_private_owned=[], rooms_private_owned_user_count=[],
+                                     rooms_private=['priv', 'mine'], rooms_private_user_count=[2, 1], rooms_private_operated=[]), conn)
+        if r['priv'].owner != 'bob' or r['mine'].owner is not None or ME in r['priv'].operators:
+            return True, f"after the second RoomList: priv.owner={r['priv'].owner!r} (bob expected) mine.owner={r['mine'].owner!r} (None expected) operators={r['priv'].operators}", None
+        pu = client.users._MESSAGE_MAP[M.PrivilegedUsers.Response]
+        bob, eve = client.users.get_user_object('bob'), client.users.get_user_object('eve')
+        await pu(M.PrivilegedUsers.Response(['bob', 'eve']), conn)
+        await pu(M.PrivilegedUsers.Response(['eve']), conn)
+        if bob.privileged or not eve.privileged:
+            return True, f'after PrivilegedUsers([bob, eve]) then ([eve]): bob.privileged={bob.privileged}, eve.privileged={eve.privileged}', None
     return False, '', None
 
 c, what, inp = run(main(), timeout=120)
